@@ -5,27 +5,27 @@ unreachable-with-a-bad-operand and which rule decides that invariant.  An entry 
 """
 ALLOW = {
     'anstyle_parse::params::Params::push|Overflow(Add):($self.current_subparams_Add_1)':
-        'Params invariant len < 32 (= MAX_PARAMS) and current_subparams <= len on entry: every call is on the !is_full() path (C02|guards), and push/extend/clear are the only writers of these private fields (C02|params who-may-write); so len - current_subparams >= 0, both array indexes are < 32, current_subparams + 1 <= 33 fits u8, len + 1 <= 32',
+        'Params invariant len < 32 (= MAX_PARAMS) and current_subparams <= len on entry: every call is on the !is_full() path (C02|guards), and push/extend/clear are the only writers of these private fields (C02|params who-may-write), and Params::clear zeroes both at every sequence start (reset rule, evaluated here too); so len - current_subparams >= 0, both array indexes are < 32, current_subparams + 1 <= 33 fits u8, len + 1 <= 32',
     'anstyle_parse::params::Params::push|BoundsCheck:$self.subparams[($self.len_Sub_($self.current_subparams_as_usize))]':
-        'Params invariant len < 32 (= MAX_PARAMS) and current_subparams <= len on entry: every call is on the !is_full() path (C02|guards), and push/extend/clear are the only writers of these private fields (C02|params who-may-write); so len - current_subparams >= 0, both array indexes are < 32, current_subparams + 1 <= 33 fits u8, len + 1 <= 32',
+        'Params invariant len < 32 (= MAX_PARAMS) and current_subparams <= len on entry: every call is on the !is_full() path (C02|guards), and push/extend/clear are the only writers of these private fields (C02|params who-may-write), and Params::clear zeroes both at every sequence start (reset rule, evaluated here too); so len - current_subparams >= 0, both array indexes are < 32, current_subparams + 1 <= 33 fits u8, len + 1 <= 32',
     'anstyle_parse::params::Params::push|Overflow(Sub):($self.len_Sub_($self.current_subparams_as_usize))':
-        'Params invariant len < 32 (= MAX_PARAMS) and current_subparams <= len on entry: every call is on the !is_full() path (C02|guards), and push/extend/clear are the only writers of these private fields (C02|params who-may-write); so len - current_subparams >= 0, both array indexes are < 32, current_subparams + 1 <= 33 fits u8, len + 1 <= 32',
+        'Params invariant len < 32 (= MAX_PARAMS) and current_subparams <= len on entry: every call is on the !is_full() path (C02|guards), and push/extend/clear are the only writers of these private fields (C02|params who-may-write), and Params::clear zeroes both at every sequence start (reset rule, evaluated here too); so len - current_subparams >= 0, both array indexes are < 32, current_subparams + 1 <= 33 fits u8, len + 1 <= 32',
     'anstyle_parse::params::Params::push|BoundsCheck:$self.params[$self.len]':
-        'Params invariant len < 32 (= MAX_PARAMS) and current_subparams <= len on entry: every call is on the !is_full() path (C02|guards), and push/extend/clear are the only writers of these private fields (C02|params who-may-write); so len - current_subparams >= 0, both array indexes are < 32, current_subparams + 1 <= 33 fits u8, len + 1 <= 32',
+        'Params invariant len < 32 (= MAX_PARAMS) and current_subparams <= len on entry: every call is on the !is_full() path (C02|guards), and push/extend/clear are the only writers of these private fields (C02|params who-may-write), and Params::clear zeroes both at every sequence start (reset rule, evaluated here too); so len - current_subparams >= 0, both array indexes are < 32, current_subparams + 1 <= 33 fits u8, len + 1 <= 32',
     'anstyle_parse::params::Params::push|Overflow(Add):$self.len_AddAssign=_1':
-        'Params invariant len < 32 (= MAX_PARAMS) and current_subparams <= len on entry: every call is on the !is_full() path (C02|guards), and push/extend/clear are the only writers of these private fields (C02|params who-may-write); so len - current_subparams >= 0, both array indexes are < 32, current_subparams + 1 <= 33 fits u8, len + 1 <= 32',
+        'Params invariant len < 32 (= MAX_PARAMS) and current_subparams <= len on entry: every call is on the !is_full() path (C02|guards), and push/extend/clear are the only writers of these private fields (C02|params who-may-write), and Params::clear zeroes both at every sequence start (reset rule, evaluated here too); so len - current_subparams >= 0, both array indexes are < 32, current_subparams + 1 <= 33 fits u8, len + 1 <= 32',
     'anstyle_parse::params::Params::extend|Overflow(Add):($self.current_subparams_Add_1)':
-        'Params invariant len < 32 (= MAX_PARAMS) and current_subparams <= len on entry: every call is on the !is_full() path (C02|guards), and push/extend/clear are the only writers of these private fields (C02|params who-may-write); so len - current_subparams >= 0, both array indexes are < 32, current_subparams + 1 <= 33 fits u8, len + 1 <= 32',
+        'Params invariant len < 32 (= MAX_PARAMS) and current_subparams <= len on entry: every call is on the !is_full() path (C02|guards), and push/extend/clear are the only writers of these private fields (C02|params who-may-write), and Params::clear zeroes both at every sequence start (reset rule, evaluated here too); so len - current_subparams >= 0, both array indexes are < 32, current_subparams + 1 <= 33 fits u8, len + 1 <= 32',
     'anstyle_parse::params::Params::extend|BoundsCheck:$self.subparams[($self.len_Sub_($self.current_subparams_as_usize))]':
-        'Params invariant len < 32 (= MAX_PARAMS) and current_subparams <= len on entry: every call is on the !is_full() path (C02|guards), and push/extend/clear are the only writers of these private fields (C02|params who-may-write); so len - current_subparams >= 0, both array indexes are < 32, current_subparams + 1 <= 33 fits u8, len + 1 <= 32',
+        'Params invariant len < 32 (= MAX_PARAMS) and current_subparams <= len on entry: every call is on the !is_full() path (C02|guards), and push/extend/clear are the only writers of these private fields (C02|params who-may-write), and Params::clear zeroes both at every sequence start (reset rule, evaluated here too); so len - current_subparams >= 0, both array indexes are < 32, current_subparams + 1 <= 33 fits u8, len + 1 <= 32',
     'anstyle_parse::params::Params::extend|Overflow(Sub):($self.len_Sub_($self.current_subparams_as_usize))':
-        'Params invariant len < 32 (= MAX_PARAMS) and current_subparams <= len on entry: every call is on the !is_full() path (C02|guards), and push/extend/clear are the only writers of these private fields (C02|params who-may-write); so len - current_subparams >= 0, both array indexes are < 32, current_subparams + 1 <= 33 fits u8, len + 1 <= 32',
+        'Params invariant len < 32 (= MAX_PARAMS) and current_subparams <= len on entry: every call is on the !is_full() path (C02|guards), and push/extend/clear are the only writers of these private fields (C02|params who-may-write), and Params::clear zeroes both at every sequence start (reset rule, evaluated here too); so len - current_subparams >= 0, both array indexes are < 32, current_subparams + 1 <= 33 fits u8, len + 1 <= 32',
     'anstyle_parse::params::Params::extend|BoundsCheck:$self.params[$self.len]':
-        'Params invariant len < 32 (= MAX_PARAMS) and current_subparams <= len on entry: every call is on the !is_full() path (C02|guards), and push/extend/clear are the only writers of these private fields (C02|params who-may-write); so len - current_subparams >= 0, both array indexes are < 32, current_subparams + 1 <= 33 fits u8, len + 1 <= 32',
+        'Params invariant len < 32 (= MAX_PARAMS) and current_subparams <= len on entry: every call is on the !is_full() path (C02|guards), and push/extend/clear are the only writers of these private fields (C02|params who-may-write), and Params::clear zeroes both at every sequence start (reset rule, evaluated here too); so len - current_subparams >= 0, both array indexes are < 32, current_subparams + 1 <= 33 fits u8, len + 1 <= 32',
     'anstyle_parse::params::Params::extend|Overflow(Add):$self.current_subparams_AddAssign=_1':
-        'Params invariant len < 32 (= MAX_PARAMS) and current_subparams <= len on entry: every call is on the !is_full() path (C02|guards), and push/extend/clear are the only writers of these private fields (C02|params who-may-write); so len - current_subparams >= 0, both array indexes are < 32, current_subparams + 1 <= 33 fits u8, len + 1 <= 32',
+        'Params invariant len < 32 (= MAX_PARAMS) and current_subparams <= len on entry: every call is on the !is_full() path (C02|guards), and push/extend/clear are the only writers of these private fields (C02|params who-may-write), and Params::clear zeroes both at every sequence start (reset rule, evaluated here too); so len - current_subparams >= 0, both array indexes are < 32, current_subparams + 1 <= 33 fits u8, len + 1 <= 32',
     'anstyle_parse::params::Params::extend|Overflow(Add):$self.len_AddAssign=_1':
-        'Params invariant len < 32 (= MAX_PARAMS) and current_subparams <= len on entry: every call is on the !is_full() path (C02|guards), and push/extend/clear are the only writers of these private fields (C02|params who-may-write); so len - current_subparams >= 0, both array indexes are < 32, current_subparams + 1 <= 33 fits u8, len + 1 <= 32',
+        'Params invariant len < 32 (= MAX_PARAMS) and current_subparams <= len on entry: every call is on the !is_full() path (C02|guards), and push/extend/clear are the only writers of these private fields (C02|params who-may-write), and Params::clear zeroes both at every sequence start (reset rule, evaluated here too); so len - current_subparams >= 0, both array indexes are < 32, current_subparams + 1 <= 33 fits u8, len + 1 <= 32',
     "<anstyle_parse::params::ParamsIter<'a>_as_core::iter::traits::iterator::Iterator>::next|BoundsCheck:$self.params.subparams[$self.index]":
         'ParamsIter invariant: index < len <= 32 under the `index >= len -> return None` guard (C02|params end-guard); subparams[index] was written by push/extend as the size of the group that starts at index, so index + size <= len <= 32',
     "<anstyle_parse::params::ParamsIter<'a>_as_core::iter::traits::iterator::Iterator>::next|call:index:$self.params.params[Range{start:_$self.index,_end:_($self.index_Add_($num_subparams_as_usize))}]":
